@@ -14,7 +14,7 @@ from .rules_request import groupby_inputs_sorted
 from .flat import flat
 from .loops import loop_views, stores_keyed_by
 from .schema import Schema
-from .source import AnalysisError, ClassInfo, Project, dotted, parent
+from .source import AnalysisError, ClassInfo, Func, Project, dotted, parent
 
 OFXGET = "ofxtools.scripts.ofxget"
 
@@ -365,6 +365,25 @@ def g_rules(p: Project, rep: Report):
                 continue
             fs = sorted(set(it.filters))
             verdict = fs == [(f"{tn[0]} in CONFIGURABLE", True)]
+    # what was read is what is returned: not passed through a function that drops entries
+    from .paths import return_paths as _rps
+
+    try:
+        rc_rps, _rc_pl = _rps(rc, None, Expander(rc))
+    except AnalysisError:
+        rc_rps = []
+    for _q, rtxt_, _sc in rc_rps:
+        try:
+            v_ = ast.parse(rtxt_, mode="eval").body
+        except SyntaxError:
+            continue
+        r_ = rc0
+        if isinstance(v_, ast.Call) and isinstance(v_.func, ast.Name):
+            tgt_ = p.resolve(OFXGET, v_.func.id)
+            if isinstance(tgt_, Func):
+                drops = any(isinstance(c_, (ast.DictComp, ast.ListComp, ast.GeneratorExp, ast.SetComp)) and any(g.ifs for g in c_.generators) for c_ in ast.walk(tgt_.node)) or any(isinstance(c_, ast.Call) and text(c_.func) == "filter" for c_ in ast.walk(tgt_.node))
+                if drops:
+                    rep.check("G-R3", "read_config:returns-what-it-read", False, f"read_config() passes what it read through {v_.func.id}(), which drops entries: an option the section sets to a blank value no longer counts as set, and a lower-ranking source (OFX Home, the defaults) takes over", gloc(p, r_))
     if verdict is None:
         rep.note("G-R3 undecided: read_config() does not read the section through a recognisable loop / comprehension")
     else:
@@ -419,11 +438,44 @@ def g_rules(p: Project, rep: Report):
     ok = bool(dd) and all(text(s.value) == "USERCFG[USERCFG.default_section]" for s in dd)
     rep.check("G-R4", "mk_server_cfg:clientuid-in-default-section", ok, "" if ok else "the generated CLIENTUID is not kept in the default section", gloc(p, mk))
 
-    rep.rule("G-R5", "persisted strings are interpolation-safe: every value arg2config returns has '%' doubled (or the parsers are created with interpolation=None)")
+    rep.rule("G-R5", "writer and reader of the user file agree on '%': arg2config doubles every '%' exactly when the user-file parser interpolates (the default); with interpolation switched off (constructor keyword, or set in the parser class's __init__) nothing may be doubled - a mismatch either way makes a persisted value containing '%' (legal in URLs) raise on --write or come back changed ('%%20')")
     rets = [r for r in own_nodes(a2c) if isinstance(r, ast.Return) and r.value is not None]
-    safe_parsers = all(any(k.arg == "interpolation" and isinstance(k.value, ast.Constant) and k.value.value is None for k in c.keywords) for c in ast.walk(m.tree) if isinstance(c, ast.Call) and (dotted(c.func) or "") in ("UserConfig", "LibraryConfig", "configparser.ConfigParser", "ConfigParser"))
-    ok = bool(rets) and (safe_parsers or all(isinstance(r.value, ast.Call) and isinstance(r.value.func, ast.Attribute) and r.value.func.attr == "replace" and [text(a).replace('"', "'") for a in r.value.args] == ["'%'", "'%%'"] for r in rets))
-    rep.check("G-R5", "arg2config:percent-escaped", ok, "a value containing '%' (legal in URLs) is handed to ConfigParser unescaped: --write raises, or the value is read back differently" if not ok else "", gloc(p, a2c))
+    escapes = bool(rets) and all(isinstance(r.value, ast.Call) and isinstance(r.value.func, ast.Attribute) and r.value.func.attr == "replace" and [text(a).replace('"', "'") for a in r.value.args] == ["'%'", "'%%'"] for r in rets)
+
+    def interpolation_off(clsname: str) -> bool:
+        for c in ast.walk(m.tree):
+            if isinstance(c, ast.Call) and (dotted(c.func) or "") == clsname and any(k.arg == "interpolation" and isinstance(k.value, ast.Constant) and k.value.value is None for k in c.keywords):
+                return True
+        try:
+            ci_ = p.get_class(OFXGET, clsname)
+        except Exception:
+            return False
+        init_ = ci_.own_func("__init__")
+        if init_ is None:
+            return False
+        for x in ast.walk(init_):
+            if isinstance(x, ast.Assign) and isinstance(x.targets[0], ast.Subscript) and text(x.targets[0].slice).strip("'\"") == "interpolation" and isinstance(x.value, ast.Constant) and x.value.value is None:
+                return True
+            if isinstance(x, ast.Call) and isinstance(x.func, ast.Attribute) and x.func.attr in ("setdefault", "update") and any(isinstance(a_, ast.Constant) and a_.value == "interpolation" for a_ in x.args) and any(isinstance(a_, ast.Constant) and a_.value is None for a_ in x.args[1:]):
+                return True
+            if isinstance(x, ast.Call) and is_super_init(x) and any(k.arg == "interpolation" and isinstance(k.value, ast.Constant) and k.value.value is None for k in x.keywords):
+                return True
+        return False
+
+    def is_super_init(c):
+        return isinstance(c.func, ast.Attribute) and c.func.attr == "__init__" and isinstance(c.func.value, ast.Call) and text(c.func.value.func) == "super"
+
+    user_cls = next((dotted(st.value.func) for st in m.tree.body if isinstance(st, ast.Assign) and text(st.targets[0]) == "USERCFG" and isinstance(st.value, ast.Call)), None)
+    if user_cls is None or not rets:
+        rep.note("G-R5 undecided: USERCFG / arg2config not recognised")
+    else:
+        off = interpolation_off(user_cls)
+        ok = escapes != off
+        why = ""
+        if not ok:
+            why = ("'%' is doubled on write but the user-file parser no longer interpolates: the doubled form is read back as it is ('%20' becomes '%%20', and doubles again on every --write)" if off
+                   else "a value containing '%' (legal in URLs) is handed to an interpolating ConfigParser unescaped: --write raises, or the value is read back differently")
+        rep.check("G-R5", "arg2config:percent-escaped", ok, why, gloc(p, a2c))
 
 
 # --------------------------------------------------------------------------
